@@ -42,7 +42,10 @@ def pars_of(idx, thorough):
     if idx == "evi":
         if thorough:
             return [[a, b, l, g] for a in C_H for b in C_H for l in L_H for g in G_H]
-        return [[a, b, l, g] for a in (0, 12) for b in (2, 15) for l in L_H for g in (2, 5)]
+        # quick: the boundary value 0 of EVERY parameter (c1, c2, gain; soil_factor runs over all five values) and
+        # the largest value, plus a few combinations with the middle values
+        return ([[a, b, l, g] for a in (0, 12) for b in (0, 15) for l in L_H for g in (0, 5)]
+                + [[2, 2, 0, 2], [2, 12, 1, 2], [15, 2, -1, 5], [12, 12, 2, 2], [0, 0, 0, 2], [15, 0, 2, 2]])
     if idx == "savi":
         return [[0, 0, l, 2] for l in L_H]
     return [[0, 0, 0, 2]]
@@ -73,14 +76,17 @@ def index_jobs(thorough, rng):
             if not thorough and idx == "evi":
                 # rotate the dtypes over the parameter combinations instead of the full product
                 inv = scale_invariant(idx, par)
-                dts = [dts[(n + k) % len(dts)] for k in range(4)] + [("float64", 0)]
+                # ... but ALWAYS the full float tuple space (NaN in each band position, alone and combined) with the
+                # parameters passed as floats and as ints (c2 = 0.0 and c2 = 0 are different call signatures)
+                dts = [dts[(n + k) % len(dts)] for k in range(3)] + [("float64", 0, False), ("float32", 0, True)]
                 if inv:
                     dts += [("float32", -26), ("float64", -60)]
-            for d, sh in dts:
+            for ent in dts:
+                d, sh = ent[0], ent[1]
                 n += 1
                 cells = tf if d.startswith("float") else ti
                 jobs.append({"kind": "I", "idx": idx, "par": par, "dtype": d, "sh": sh, "kw": n % 3 == 0,
-                             "intpar": n % 2 == 0, "cells": cells})
+                             "intpar": (n % 2 == 0) if len(ent) < 3 else ent[2], "cells": cells})
     # signed bands (negative radicands of EBBI, negative denominators) on signed dtypes
     for idx in IDX10:
         ts = [list(t) for t in itertools.product([-3, -2, -1, 0, 1, 2, 3], repeat=ARITY[idx])]
@@ -160,6 +166,27 @@ def color_jobs(rng, thorough):
         for k, (red, g, b, W) in enumerate(flat):
             for nodata in ([None, 0, 3] if thorough else [[None, 0, 3][k % 3]]) + ([2.5] if k % 4 == 0 else []):
                 jobs.append({"kind": "T", "red": red, "green": g, "blue": b, "nodata": nodata, "dtype": dt, "W": W})
+    # red within one float32 rounding of nodata, on either side, in dtypes wider than float32: the alpha rule is
+    # about the RAW red band in its own dtype (values and nodata are encoded for TLC by exact rank)
+    T24, T53 = 2 ** 24, 2 ** 53
+    near = [("float64", 1, [1 + 1e-9, 1 - 1e-9, 1.0, 1 + 1e-12, 2.0, 0.5, "nan", 1 + 3e-8]),
+            ("float64", None, [1 + 1e-9, 1 - 1e-9, 1.0, 3.0, 0.0, 1 + 1e-15]),
+            ("float64", 0, [1e-50, -1e-50, 0.0, 1e-300, 5.0, "nan", -1.0]),
+            ("float64", 2.5, [2.5 + 1e-10, 2.5 - 1e-10, 2.5, 2.5000001, 9.0, 0.0]),
+            ("float64", T24, [T24 + 1, T24, T24 - 1, T24 + 2, T24 + 0.5, 0.0]),
+            ("int32", T24, [T24 + 1, T24, T24 - 1, T24 + 2, T24 + 3, 0, 5]),
+            ("uint32", T24, [T24 + 1, T24, T24 - 1, T24 + 3, 2 ** 31 + 1, 0]),
+            ("int64", T24, [T24 + 1, T24, T24 - 1, T24 + 2, 7, -T24 - 1]),
+            ("uint64", T24, [T24 + 1, T24, T24 - 1, T24 + 5, 2 ** 40 + 1, 0]),
+            ("int64", T53, [T53 + 1, T53, T53 - 1, T53 + 2, 0, 1]),
+            ("uint64", 2 ** 40, [2 ** 40 + 1, 2 ** 40, 2 ** 40 - 1, 2 ** 63 + 1, 0, 3]),
+            ("int32", -T24 - 1, [-T24 - 1, -T24, -T24 - 2, 0, 3, -T24 + 5])]
+    for dt, nodata, red in near:
+        n = len(red)
+        for W in (n, 2) if thorough else (2,):
+            jobs.append({"kind": "T", "red": red, "green": [rng.randint(0, 6) for _ in range(n)],
+                         "blue": [rng.randint(0, 6) for _ in range(n)], "nodata": nodata, "dtype": dt, "W": W,
+                         "rank": True})
     return jobs
 
 
@@ -253,7 +280,7 @@ def run(ctx):
     if thorough:
         mc(ctx, "evi_all_parameters", ["evi"], C_H, C_H, L_H, G_H)
     else:
-        mc(ctx, "evi_parameters", ["evi"], [0, 12], [2, 15], L_H, [2, 5])
+        mc(ctx, "evi_parameters", ["evi"], [0, 12], [0, 15], L_H, [0, 5])
     # negative bands too (signed inputs): the formulas, guards and symmetries do not depend on the sign
     mc(ctx, "signed_bands", others, [0], [0], [-2, 0, 1], [2], bands="(-3..3) \\cup {NAN}")
     # negative twins, each against the lemma that is there to catch it
